@@ -820,6 +820,15 @@ static std::vector<std::string> eval_counter_names()
             "judged_with_zero_error"};
 }
 
+static bool has_float_leaf(const Basic &e)
+{
+    if (is_a<RealDouble>(e) || is_a<RealMPFR>(e))
+        return true;
+    for (auto &a : e.get_args())
+        if (has_float_leaf(*a))
+            return true;
+    return false;
+}
 static void eval_term(int si, Ctx &c)
 {
     const TState &s = TS[si];
@@ -872,6 +881,8 @@ static void eval_term(int si, Ctx &c)
                 for (auto &a : cu->get_args())
                     if (is_a<RealDouble>(*a) || is_a<RealMPFR>(*a))
                         fl = "[" + type_code_name(a->get_type_code()) + "-arg]";
+                if (fl.empty() && has_float_leaf(*cu))
+                    fl = "[float-inside]";
                 c.violation(std::string("eval_mpfr:") + CLSN[r.cls] + ":" + type_code_name(cu->get_type_code()) + fl,
                             "eval_mpfr(" + recipe(si) + " = " + sstr(s.e) + ", " + std::to_string(prec) + " bits, RNDN): " + r.detail
                                 + "; smallest failing subtree " + sstr(cu->rcp_from_this()) + " [" + type_code_name(cu->get_type_code()) + "("
@@ -1534,40 +1545,12 @@ static std::vector<int> run_layer(const std::string &tag, const std::vector<Rec>
             g_ctor_throw++;
         }
     }
-    if (getenv("C45_PROFILE") && tag == "L2") {
-        std::map<std::string, std::pair<double, int>> acc;
-        Shared sh;
-        memset((void *)&sh, 0, sizeof sh);
-        Ctx c;
-        c.sh = &sh;
-        c.out = fopen("/dev/null", "w");
-        for (size_t i = 0; i < fresh_out.size(); i += 211) {
-            double t0 = now();
-            eval_term(fresh_out[i], c);
-            double dt = now() - t0;
-            const TState &s = TS[fresh_out[i]];
-            std::string k = std::string(OPS[s.op].name) + "(" + (TS[s.a].op >= 0 ? OPS[TS[s.a].op].name : "leaf") + ")";
-            acc[k].first += dt;
-            acc[k].second++;
-            acc["~" + std::string(OPS[s.op].name)].first += dt;
-            acc["~" + std::string(OPS[s.op].name)].second++;
-            acc["^" + std::string(TS[s.a].op >= 0 ? OPS[TS[s.a].op].name : "leaf")].first += dt;
-            acc["^" + std::string(TS[s.a].op >= 0 ? OPS[TS[s.a].op].name : "leaf")].second++;
-        }
-        std::vector<std::pair<double, std::string>> v;
-        for (auto &kv : acc)
-            v.push_back({kv.second.first, kv.first + " n=" + std::to_string(kv.second.second)});
-        std::sort(v.rbegin(), v.rend());
-        for (size_t i = 0; i < v.size() && i < 60; i++)
-            printf("PROFILE %8.3f s  %s\n", v[i].first, v[i].second.c_str());
-        exit(0);
-    }
     CaseSet ce;
     ce.name = "eval-" + tag;
     ce.n = fresh_out.size();
     ce.counter_names = eval_counter_names();
     ce.hang_s = 60;
-    ce.desc = [&](long long i) { return recipe(fresh_out[i]) + " at 64/113/200/1000 bits"; };
+    ce.desc = [&](long long i) { return recipe(fresh_out[i]) + (g_nprec == 4 ? " at 64/113/200/1000 bits" : " at 64/113 bits"); };
     ce.crash_sig = [&](long long i, const std::string &oc) {
         return "eval_mpfr:" + oc + ":" + type_code_name(TS[fresh_out[i]].e->get_type_code());
     };
@@ -1781,52 +1764,73 @@ int main(int argc, char **argv)
     std::vector<Rec> recs2;
     std::vector<int> idx2;
     if (!past_deadline()) {
-        std::vector<int> L0s; // small leaf set for the remaining binary constructors (thorough only)
-        for (int l : L0)
-            if (LEAFN[l] == "2" || LEAFN[l] == "1/3" || LEAFN[l] == "pi")
-                L0s.push_back(l);
-        for (int t : fresh1) {
-            if (!TS[t].compose)
-                continue;
-            if (!thorough) { // quick: the (expensive) incomplete-gamma/beta terms are composed further only in the thorough tier
-                std::string on = OPS[TS[t].op].name;
-                if (on == "uppergamma" || on == "lowergamma" || on == "beta")
-                    continue;
-            }
-            for (int op = 0; op < NOPS; op++) {
+        // T1q: 1-call terms over the 9 "l2" leaves; second call: unary constructors on T1q (quick) / on all of T1 (thorough),
+        // binary constructors with T1q on one side and a leaf on the other
+        std::set<int> l2set(L0l2.begin(), L0l2.end()), t1q;
+        for (size_t k = 0; k < recs1.size(); k++)
+            if (idx1[k] >= 0 && TS[idx1[k]].op >= 0 && TS[idx1[k]].compose && l2set.count(recs1[k].a) && (recs1[k].b < 0 || l2set.count(recs1[k].b)))
+                t1q.insert(idx1[k]);
+        std::vector<int> Lbig, Lsmall; // leaves for the main / the remaining binary constructors
+        for (int l : L0) {
+            const std::string &n = LEAFN[l];
+            if (n == "2" || n == "1/3" || n == "pi")
+                Lsmall.push_back(l);
+            if (thorough ? l2set.count(l) > 0 : (n == "2" || n == "1/3" || n == "pi" || n == "mpfr64(0.3)"))
+                Lbig.push_back(l);
+        }
+        std::set<int> done_u;
+        auto costly = [&](int t) { // quick: incomplete-gamma/beta terms are composed further only in the thorough tier
+            std::string on = OPS[TS[t].op].name;
+            return !thorough && (on == "uppergamma" || on == "lowergamma" || on == "beta");
+        };
+        auto push_unary = [&](int t) {
+            if (!TS[t].compose || costly(t) || !done_u.insert(t).second)
+                return;
+            for (int op = 0; op < NOPS; op++)
                 if (OPS[op].u)
                     recs2.push_back({op, t, -1});
-                else if (thorough || OPS[op].l2)
-                    for (int l : OPS[op].l2 ? L0l2 : L0s) {
-                        recs2.push_back({op, t, l});
-                        recs2.push_back({op, l, t});
-                    }
+        };
+        for (int t : t1q)
+            push_unary(t);
+        if (thorough)
+            for (int t : fresh1) {
+                std::string on = TS[t].op >= 0 ? OPS[TS[t].op].name : "";
+                if (on == "uppergamma" || on == "lowergamma" || on == "beta")
+                    continue; // the costly incomplete-gamma/beta terms are composed further only when built over the l2 leaves (t1q)
+                push_unary(t);
             }
-        }
+        for (int t : t1q)
+            for (int op = 0; op < NOPS; op++) {
+                if (OPS[op].u || (!thorough && !OPS[op].l2) || costly(t))
+                    continue;
+                for (int l : OPS[op].l2 ? Lbig : Lsmall) {
+                    recs2.push_back({op, t, l});
+                    recs2.push_back({op, l, t});
+                }
+            }
+        R.counters["T1q_terms(1 call over the 9 l2 leaves)"] = t1q.size();
         g_nprec = thorough ? 4 : 2;
         idx2 = run_layer("L2", recs2, 2, fresh2);
         g_nprec = 4;
         if (R.exhaustive)
-            bound = std::string("all closed terms with <= 2 constructor calls: ") + std::to_string(L0.size()) + " leaves, " + std::to_string(NOPS)
-                    + " constructors" + (thorough ? " (second call: every unary constructor; binary {add,sub,mul,div,pow,atan2,max} with "
-                                                   + std::to_string(L0l2.size()) + " leaves, {min,beta,uppergamma,lowergamma} with {2,1/3,pi})"
-                                                 : " (second call, judged at 64 and 113 bits: every unary constructor; binary "
-                                                         "{add,sub,mul,div,pow,atan2,max} with " + std::to_string(L0l2.size())
-                                                         + " leaves; beta/uppergamma/lowergamma terms not composed further)");
+            bound += thorough ? "; 2 calls: every unary constructor on every 1-call term (beta/uppergamma/lowergamma terms: only those over the 9 l2-leaves); every binary constructor with a 1-call term over the 9 "
+                                "l2-leaves on one side and a leaf on the other ({add,sub,mul,div,pow,atan2,max}: 9 leaves; others: {2,1/3,pi})"
+                              : "; 2 calls (judged at 64 and 113 bits): every unary constructor on every 1-call term over the 9 l2-leaves; binary "
+                                "{add,sub,mul,div,pow,atan2,max} with such a term on one side and a leaf of {2,1/3,pi,mpfr64(0.3)} on the other";
     }
     if (thorough && !past_deadline()) {
         // n <= 3 over the restricted alphabet
         std::set<int> r0(L0r.begin(), L0r.end()), r1, r2;
         for (size_t k = 0; k < recs1.size(); k++) {
             const Rec &r = recs1[k];
-            if (idx1[k] < 0 || !OPS[r.op].restricted || !TS[idx1[k]].compose)
+            if (idx1[k] < 0 || !OPS[r.op].restricted || !TS[idx1[k]].compose || TS[idx1[k]].op < 0)
                 continue;
             if (r0.count(r.a) && (r.b < 0 || r0.count(r.b)))
                 r1.insert(idx1[k]);
         }
         for (size_t k = 0; k < recs2.size(); k++) {
             const Rec &r = recs2[k];
-            if (idx2[k] < 0 || !OPS[r.op].restricted || !TS[idx2[k]].compose)
+            if (idx2[k] < 0 || !OPS[r.op].restricted || !TS[idx2[k]].compose || TS[idx2[k]].op < 0)
                 continue;
             bool ok = r.b < 0 ? r1.count(r.a) > 0 : ((r1.count(r.a) && r0.count(r.b)) || (r0.count(r.a) && r1.count(r.b)));
             if (ok)
